@@ -20,7 +20,7 @@ DEFS = ("struct Foo { f: Int, g: String }\nenum Col { Red, Cust(Int) }\nfun type
         "fun opt(x: Option<Int>): Int { match x { Some(i) => i None => 0 } }\n"
         "fun two(a: Int, b: String): Int { a }\nfun badret(x): Int { x }\nfun earlyret(x): Int { return x }\n"
         "fun nohint(x): NoSuchType { x }\nfun deep(x) { typed(x) }\nfun thrower(x) { throw(x) }\n"
-        "method m(this: Foo, x: Int): Int { x }\nmethod badm(this: Foo, x): Int { x }\n")
+        "method m(this: Foo, x: Int): Int { x }\nmethod badm(this: Foo, x): Int { x }\nfun badparam(x: NoSuchType) { x }\n")
 
 # (name, statements) - {v} ranges over the pool. The last statement is the one that raises.
 C02_FORMS = [
@@ -36,7 +36,7 @@ EXTRA_FORMS = [
     "two({v}, {v})", "two({v})", "two(1, \"\", {v})", "deep({v})", "thrower({v})", "let f = fun(a: String) {{ a }}\nf({v})", "let f = fun() {{ 1 }}\nf({v})",
     "Foo{{ f: 1, g: \"\" }}.m({v})", "Foo{{ f: 1, g: \"\" }}.m({v}, 1)", "Foo{{ f: 1, g: \"\" }}.m()", "Foo{{ f: 1, g: \"\" }}.badm({v})", "{v}.m(1)",
     # return types
-    "badret({v})", "earlyret({v})", "nohint({v})", "let f = fun(a): String {{ a }}\nf({v})", "let f = fun(a): String {{ return a }}\nf({v})",
+    "badret({v})", "earlyret({v})", "nohint({v})", "badparam({v})", "let f = fun(a): String {{ a }}\nf({v})", "let f = fun(a): String {{ return a }}\nf({v})",
     # let hints / destructuring
     "let x: String = {v}", "let x: Option<Int> = {v}", "let x: (Int, Int) = {v}", "let x: NoSuchType = {v}", "let (a, b, c) = {v}", "let (a, b) = ({v}, 1, 2)", "for (a, b) in [{v}] {{ a }}", "for (a, b) in {v} {{ a }}",
     # match without a matching case
